@@ -21,7 +21,7 @@ class ConcSpec:
     def __init__(self, name, scenario, grid, inv_props, primary, mc_cfgs=(), paths_cfg=None, trace_cfg=None,
                  dfs_max=20000, rand_execs=0, preempt=None, scen_keys=None, trace_workers=1, gen_module=None,
                  rand_grid=None, paths_max=4000, trace_timeout=900, tail_execs=40, replay_logical=(), replay_skip_none=False, tail_boost=(), tail_boost_execs=400, tail_boost_preempt=1,
-                 drift_boost_execs=1500):
+                 drift_boost_execs=1500, flavour="fiber"):
         self.name = name
         self.scenario = scenario
         self.grid = grid
@@ -45,6 +45,7 @@ class ConcSpec:
         # when recorded executions drift from the specification (the code was restructured), the specification's own
         # invariants are silent from the drift on: the exploration is deepened instead (judged by the monitors only)
         self.drift_boost_execs = drift_boost_execs
+        self.flavour = flavour  # library configuration the scenario is built against
         self.replay_skip_none = replay_skip_none  # "none" events (plain code before the first operation) consume no decision
         self.replay_logical = set(replay_logical)  # object names the specification uses logically (bound at first use)
 
@@ -480,8 +481,8 @@ def replay_paths(rep, spec, wd, exe):
 
 def run_conc(rep, spec, tier, seed, want):
     """Full pipeline for one specification. `want` = set of property ids whose violations are reported."""
-    exe = core.build_harness()
-    wd = core.workdir(spec.name)
+    exe = core.build_harness(flavour=spec.flavour)
+    wd = core.workdir(spec.name if spec.flavour == "fiber" else spec.name + "_" + spec.flavour)
     execs = collect_traces(rep, spec, exe, tier, seed)
     rep.executions += len(execs)
     if not execs:
